@@ -9,7 +9,7 @@ stable = set(base['stable_pass'])
 with tempfile.TemporaryDirectory() as td:
     junit = os.path.join(td, 'j.xml')
     env = dict(os.environ, PYTHONPATH=os.path.join(root, 'src'))
-    cmd = ['/venv/bin/python', '-m', 'pytest', '-q', '-p', 'no:cacheprovider', '--timeout=900', '--continue-on-collection-errors', '-n', '12', f'--junitxml={junit}', *extra]
+    cmd = ['/venv/bin/python', '-m', 'pytest', '-q', '-p', 'no:cacheprovider', '--timeout=900', '--continue-on-collection-errors', '-n', '8', f'--junitxml={junit}', *extra]
     p = subprocess.run(cmd, cwd=root, env=env, capture_output=True, text=True)
     print(p.stdout[-600:])
     passed = set()
